@@ -5,14 +5,16 @@
 (* before the usable one, unknown names, empty lists, members whose route     *)
 (* queries fail, nested fan-out.                                               *)
 EXTENDS Irrd
-MCCalls == {[k |-> "fset", n |-> "F2"], [k |-> "fset", n |-> "Fbad"], [k |-> "fset", n |-> "Fx"],
+MCCalls == {[k |-> "fset", n |-> "F2"], [k |-> "fset", n |-> "Fbad"], [k |-> "fset", n |-> "Fx"], [k |-> "fset", n |-> "Fe"],
             [k |-> "asset", n |-> "S1"], [k |-> "asset", n |-> "Sx"], [k |-> "asset", n |-> "S0"],
             [k |-> "rset", n |-> "R1"], [k |-> "rset", n |-> "Rx"], [k |-> "as", n |-> "A1"], [k |-> "as", n |-> "A2"]}
 MCAnswerOp(q) ==
   CASE q.c = "n" -> [st |-> "C", items |-> <<>>]
     [] q.c = "m" /\ q.n = "F2" -> [st |-> "A", items |-> <<"good", "good">>]
     [] q.c = "m" /\ q.n = "Fbad" -> [st |-> "A", items |-> <<"bad", "good", "bad">>]
+    [] q.c = "m" /\ q.n = "Fe" -> [st |-> "E", items |-> <<>>]          \* "not unique"
     [] q.c = "m" -> [st |-> "D", items |-> <<>>]
+    [] q.c = "s" -> [st |-> "C", items |-> <<>>]
     [] q.c = "i" /\ q.n = "S1" -> [st |-> "A", items |-> <<"A1", "A2">>]
     [] q.c = "i" /\ q.n = "S0" -> [st |-> "C", items |-> <<>>]
     [] q.c = "i" /\ q.n = "R1" -> [st |-> "A", items |-> <<"p1", "p2">>]
@@ -23,6 +25,12 @@ MCAnswerOp(q) ==
     [] q.c = "g" /\ q.n = "A2" -> [st |-> "F", items |-> <<>>]
     [] q.c = "6" /\ q.n = "A2" -> [st |-> "A", items |-> <<"p4", "p5">>]
     [] OTHER -> [st |-> "D", items |-> <<>>]
-Names == {"id", "F2", "Fbad", "Fx", "S1", "Sx", "S0", "R1", "Rx", "A1", "A2"}
-MCAns == [q \in {Q(c, n) : c \in {"n", "m", "i", "g", "6"}, n \in Names} |-> MCAnswerOp(q)]
+Names == {"id", "F2", "Fbad", "Fx", "Fe", "S1", "Sx", "S0", "R1", "Rx", "A1", "A2"}
+MCDomain == {Q(c, n) : c \in {"n", "m", "i", "g", "6"}, n \in Names} \cup {Q("s", "one"), Q("s", "all")}
+MCAns == [q \in MCDomain |-> MCAnswerOp(q)]
+(* with every source selected, A1 has one more route and S1 one more member *)
+MCAnsAll == [q \in MCDomain |->
+               IF q = Q("g", "A1") THEN [st |-> "A", items |-> <<"p3", "p9">>]
+               ELSE IF q = Q("i", "S1") THEN [st |-> "A", items |-> <<"A1", "A2", "Ax">>]
+               ELSE MCAnswerOp(q)]
 =============================================================================
